@@ -104,7 +104,7 @@ pub fn entry_layer(ctx: &'static Ctx) {
                     v.push(Op { k, shape, fill });
                     v
                 };
-                for base in [2u8, 3, 0, 1, crate::fill::EQUAL] {
+                for base in [2u8, 3, 0, 1, crate::fill::EQUAL, crate::fill::LOWER, crate::fill::BLANK] {
                     progs.push((mk(Fill::b(base)), format!("base fill {}", base)));
                 }
                 for (i, ft) in fields.iter().enumerate() {
